@@ -193,7 +193,7 @@ def bounded(tier, seed):
     rnd.shuffle(pool)
     bodies = [(None, None), ('s', ['hello']), ('a{sv}', [{'a': W.Variant('i', 1), 'b': W.Variant('s', 'x')}]), ('ai', [[1, 2, 3]]), ('(ii)as', [[1, 2], ['a', 'b']]),
               ('axy', [[], 7]), ('v', [W.Variant('a{sv}', {})]), ('tdb', [2**64 - 1, -0.5, True])]
-    for ct in pool[:60 if tier == 'thorough' else 14]:
+    for ct in pool[:400 if tier == 'thorough' else 14]:
         bodies.append((ct, [W.gen_value(ct, rnd)]))
     optsets = []
     for r in range(0, 4):
@@ -217,7 +217,7 @@ def bounded(tier, seed):
                         return n, f, {'kind': kind, 'opts': o, 'flags': flags, 'body_sig': body_sig, 'body': repr(body_vals)}
     # foreign bytes
     for kind in (1, 2, 3, 4):
-        for _ in range(120 if tier == 'thorough' else 30):
+        for _ in range(1500 if tier == 'thorough' else 30):
             opts = dict(rnd.choice(optsets))
             if kind in (2, 3):
                 opts['reply_serial'] = rnd.choice([1, 9, 2**32 - 1])
